@@ -171,12 +171,12 @@ def run(ck):
                       "ports. A history is non-trivial if a metadata response was merged or looked up and a request reached the fan-out; "
                       "distinct = distinct canonical case lines.")
     ck.assumptions += [
-        "hand-written Gallina model Model/ClientRoute.v (+ Model/ClientMeta.v) stands for afkak/client.py:989-1020,1100-1229,1231-1362,1364-1394,1397-1445 and the public send_* wrappers 652-808 (tie = this run's differential correspondence, not proof)",
+        "hand-written Gallina model Model/ClientRoute.v (+ Model/ClientMeta.v) stands for afkak/client.py _get_leader_for_partition, _get_coordinator_for_group, _send_broker_unaware_request, _send_bootstrap_request, _send_broker_aware_request, _send_request_to_coordinator, _normalize_hosts and the public send_{produce,fetch,offset,offset_fetch,offset_commit}_request wrappers (tie = this run's differential correspondence, not proof)",
         "the ORDER in which brokers answer is not part of the model (DeferredList returns results in request order): the driver answers in a seeded random order to validate exactly that",
         "random.shuffle is an oracle: the orders it produced are read back from the implementation and given to the model; the theorems hold for every order",
         "one client operation at a time; request time-outs are 'the request failed' (C11), close() during a fan-out is outside (C20); a connection attempt that stays unanswered until the time-out makes the request fail UNWRITTEN: its payloads are not visible on the wire, the trace shows the request without them",
         "duplicate (topic, partition) payloads in one call are outside C07_order/C07_accounting (the response dictionary keeps one answer per key); they are exercised by the correspondence only",
-        "send_fetch_request is not driven (same _send_broker_aware_request path as the APIs that are); the network side (request parser / response encoder) was written from the Kafka protocol guide, not from afkak's codec",
+        "the client is built with enable_protocol_version_discovery=False (no ApiVersions lookup before produce/fetch) and the default disconnect_on_timeout; the network side (request parser / response encoder) was written from the Kafka protocol guide, not from afkak's codec",
         "_normalize_hosts: host names are compared as code-point lists (CPython str ordering), str.strip() for ASCII white space; non-numeric ports (ValueError) are outside the model",
         "close() called while a lookup of the running operation is pending: client.py:383-389 fail the pending request synchronously, the operation's continuation runs inside close() and reads the cache BEFORE reset_all_metadata() (391); the model does the same (ClientMeta.close_early during the operation, close_finish after it)",
         "extraction: ExtrOcamlBasic only; Z stays a Coq datatype; sample of the case lines re-evaluated in Coq by vm_compute",
